@@ -174,7 +174,8 @@ func streamRobust() {
 	okDoc := []byte("- chord: {degree: \"1\", name: \"\"}\n  values: [\"1\"]\n- chord: {degree: \"5\", name: \"7\"}\n  values: [\"1/2\"]\n")
 	okText := []byte("C[1] G7[1/2]")
 	strs := []string{"", " ", "0", "-1", "1", "x", "4/4", "0/4", "4/0", "1/", "/1", "mf", "fff", "C", "Am", "G#", "E#", "zz", "H", "xCx", "♯", "\xff", "18446744073709551616", "4294967296", "256", "65535", "65536", "70000",
-		"99999999999999999999", "1e3", "0x10", "+1", "1.5", "a,b", "a=b", "--", "-", "cmt", "cmt,cmt", "cmt,zz", ",", "Major3", "Major3,Minor3", "/nonexistent/file", "/dev/null", "/"}
+		"99999999999999999999", "1e3", "0x10", "+1", "1.5", "a,b", "a=b", "--", "-", "cmt", "cmt,cmt", "cmt,zz", ",", "Major3", "Major3,Minor3", "/nonexistent/file", "/dev/null", "/",
+		"ép", "p♯d", "é", "pé", "日本dd", "d\xffp", "dé", "ｄ", "d\u0301d", "♭♭♭", "C♯x", "pd\u2028s"}
 	flagSets := []struct {
 		cmd   []string
 		in    []byte
